@@ -341,11 +341,13 @@ class World:
         self.log.clear()
         err, res = self.call(lambda: q[:])
         queried = any(s.lstrip().upper().startswith('SELECT') for s in self.log)
-        mops = [self.row_mop(r, used=used) for r in rows] if queried else []
+        mops = [self.row_mop(r) for r in rows] if queried else []
         ys = []
         if err is None:
             ys = list(res)
             for o in ys: self.reg(o)
+        # `_set_rbits(objects, used_attrs)` runs once, after ALL rows were processed (not at all when a row raised)
+        if queried and used and err is None: mops.append({'k': 'markRead', 'os': [self.idx(o) for o in ys], 'attrs': used})
         return {'err': err, 'yields': ys if queried else None, 'mops': mops, 'results': ys}
 
     def op_sql(self, op):
@@ -753,12 +755,12 @@ def _spec(n, unique, ckeys=(), pk='explicit', parents=(None,), with_h=False):
 DIRECTED = [
     # a constructor that fails AFTER the identity map was touched (repaired in /repo, 19b6b9f): no zombie under its primary key
     ('late-failure', _spec(1, [True], with_h=True),
-     [{'k': 'create', 'cls': 0, 'kw': {'id': 1, 'a0': 1}}, {'k': 'create', 'cls': 0, 'kw': {'id': 2, 'a0': 2}, 'steal': 0},
+     [{'k': 'create', 'cls': 0, 'kw': {'id': 1, 'a0': 1}}, {'k': 'create', 'cls': 0, 'kw': {'id': 2, 'a0': 2}, 'steal': 0}, {'k': 'flush'},
       {'k': 'get', 'cls': 0, 'pk': [2], 'kw': [], 'how': 'get'}, {'k': 'create', 'cls': 0, 'kw': {'id': 2, 'a0': 2}}]),
     # a refused set() (repaired in /repo, 47bba9f): the first key was already moved when the second one conflicts
     ('refused-set', _spec(2, [True, True]),
      [{'k': 'create', 'cls': 0, 'kw': {'id': 1, 'a0': 1, 'a1': 1}}, {'k': 'create', 'cls': 0, 'kw': {'id': 2, 'a0': 2, 'a1': 2}},
-      {'k': 'set', 'o': 1, 'changes': [[0, 7], [1, 1]], 'via': 'set'}, {'k': 'create', 'cls': 0, 'kw': {'id': 3, 'a0': 7}},
+      {'k': 'set', 'o': 1, 'changes': [[0, 7], [1, 1]], 'via': 'set'}, {'k': 'create', 'cls': 0, 'kw': {'id': 3, 'a0': 7}}, {'k': 'flush'},
       {'k': 'get', 'cls': 0, 'pk': None, 'kw': [[0, 2]]}]),
     # the id the database generates is already used by a pending object with an explicit id
     ('auto-id-collision', _spec(1, [False], pk='auto'),
@@ -771,7 +773,7 @@ DIRECTED = [
     ('move-values', _spec(3, [True, False, False], ckeys=[[1, 2]]),
      [{'k': 'create', 'cls': 0, 'kw': {'id': 1, 'a0': 5, 'a1': 1}}, {'k': 'create', 'cls': 0, 'kw': {'id': 2, 'a0': 6, 'a1': 1, 'a2': 2}},
       {'k': 'set', 'o': 0, 'changes': [[2, 2]], 'via': 'attr'}, {'k': 'set', 'o': 1, 'changes': [[0, None]], 'via': 'attr'},
-      {'k': 'set', 'o': 0, 'changes': [[0, 6]], 'via': 'attr'}, {'k': 'delete', 'o': 1}, {'k': 'set', 'o': 0, 'changes': [[2, 2]], 'via': 'set'},
+      {'k': 'set', 'o': 0, 'changes': [[0, 6]], 'via': 'attr'}, {'k': 'delete', 'o': 1}, {'k': 'set', 'o': 0, 'changes': [[2, 2]], 'via': 'set'}, {'k': 'flush'},
       {'k': 'get', 'cls': 0, 'pk': None, 'kw': [[1, 1], [2, 2]]}, {'k': 'proxy', 'o': 0}]),
 ]
 
